@@ -324,10 +324,10 @@ func TestVerif_C27c(t *testing.T) {
 		}
 		return
 	}
-	for i := 0; i < verifh.Scale(1500, 30000); i++ {
+	for i := 0; i < verifh.Scale(1500, 6000); i++ {
 		c27cRace(tr, r, i)
 	}
-	for i := 0; i < verifh.Scale(3000, 60000); i++ {
+	for i := 0; i < verifh.Scale(3000, 30000); i++ {
 		c27cRound(tr, r, i)
 	}
 }
